@@ -19,7 +19,7 @@ FINDINGS_DIR = os.path.join(VERIF, 'findings')
 NPROC = int(os.environ.get('VERIF_JOBS', '16'))
 
 ASAN_ENV = {'ASAN_OPTIONS': 'abort_on_error=1:detect_leaks=1:allocator_may_return_null=1:detect_stack_use_after_return=0:quarantine_size_mb=16:malloc_context_size=12',
-            'UBSAN_OPTIONS': 'print_stacktrace=1:halt_on_error=1', 'LSAN_OPTIONS': 'exitcode=23',
+            'UBSAN_OPTIONS': 'print_stacktrace=1:halt_on_error=1:abort_on_error=1', 'LSAN_OPTIONS': 'exitcode=23',
             'TSAN_OPTIONS': 'halt_on_error=1:second_deadlock_stack=1'}
 
 
@@ -94,17 +94,27 @@ def run_hx(cmd, env=None, timeout=3600, restartable=True, max_restarts=40):
         except subprocess.TimeoutExpired:
             hung = True
             break
-        out = p.stdout.decode('latin-1').splitlines()
+        out = p.stdout.decode('latin-1').split('\n')
         err = p.stderr.decode('latin-1')
         crash = None
+        these = []
         for l in out:
             if l.startswith('CRASH '):
                 try:
                     crash = json.loads(l[6:])
                 except ValueError:
                     crash = {'case': -1, 'file': '', 'why': 'unparsable'}
-            else:
-                lines.append(l)
+            elif l:
+                these.append(l)
+        if crash is not None and these:
+            # the process died while a line was being written: drop a truncated last line
+            last = these[-1]
+            if len(last) > 2 and last[1] == ' ':
+                try:
+                    json.loads(last[2:])
+                except ValueError:
+                    these.pop()
+        lines.extend(these)
         if p.returncode == 0:
             return dict(lines=lines, crashes=crashes, rc=0, hung=False)
         if crash is None:
